@@ -295,3 +295,13 @@ class Sim:
             cls(name, **kwargs)
         finally:
             env.IDS.pending_name = None
+
+    def op_simulate(self, op):
+        """Create a dated what-if simulation (never mirrored: the baseline must not change). Returns it."""
+        from datetime import datetime
+        from efootprint.abstract_modeling_classes.modeling_update import ModelingUpdate
+        changes = []
+        for ch in op["changes"]:
+            o = self.obj(ch["obj"])
+            changes.append([getattr(o, ch["attr"]), self._new_for(ch)])
+        return ModelingUpdate(changes, simulation_date=datetime.fromisoformat(op["date"]))
